@@ -120,6 +120,16 @@ CHECKS = {
     note="Assumed: A10 ensure_text_inputs contract (trusted; exercised by the bounded tier, which corrected an over-strong first version); termination for arbitrary input is not decidable by contracts on this code (A14). "
          "Which specific error a malformed formula provokes inside pyparsing/numpy is irrelevant to the property thanks to the handler and is not analysed.",
     design="6/C02"),
+ 'C13': dict(
+    technique="contract-based deductive verification (pyvc) of the helpers around the sampling fixed point; bounded random dependency structures as stand-in for gen_symbols_samples itself",
+    text="Proved for all inputs: is_subset(xs, d) is exactly 'every item of xs is a key of d' (the test that gates the evaluation of a dependent variable); construct_constants and "
+         "construct_suffixes return FRESH dictionaries containing every default entry (and exactly the default + metric suffixes) and never write the dictionaries they are given "
+         "(frame obligations; dict iteration as an arbitrary duplicate-free enumeration). NOT proved: gen_symbols_samples (dict comprehensions over effectful sampler calls and the "
+         "while/for fixed point are outside the verifier's subset -- its loop invariants and variant are in DESIGN 6/C13), generate_variable_list (regex), gen_var_and_func_samples. "
+         "Bounded: random DAGs of <= 8 variables in shuffled declaration orders with every sample re-evaluated formula by formula, cyclic/dangling variants (ConfigError within a time limit), "
+         "numbered-variable instances, shadowed constants.",
+    note="Assumed: A5 dict iteration order not modelled; A9 evaluator/parse deterministic. Termination of the fixed-point loop is checked only with a 5 s limit in the bounded tier.",
+    design="6/C13"),
 }
 
 NOT_YET = {}
